@@ -426,10 +426,23 @@ func (this *Writer) RemoveListener(bl kanzi.Listener) bool {
 	return false
 }
 
-func (this *Writer) writeHeader() *IOError {
+// Use a named return value to update the error in the defer function (after return is executed)
+func (this *Writer) writeHeader() (err *IOError) {
 	if this.headless == true || atomic.SwapInt32(&this.initialized, 1) != 0 {
 		return nil
 	}
+
+	defer func() {
+		// The bitstream panics when the underlying stream fails
+		if r := recover(); r != nil {
+			switch v := r.(type) {
+			case error:
+				err = &IOError{msg: v.Error(), code: kanzi.ERR_WRITE_FILE}
+			default:
+				err = &IOError{msg: fmt.Sprint(v), code: kanzi.ERR_WRITE_FILE}
+			}
+		}
+	}()
 
 	ckSize := 0
 
@@ -577,10 +590,22 @@ func (this *Writer) Write(block []byte) (int, error) {
 // Close writes the buffered data to the writer then writes
 // a final empty block and releases resources.
 // Close makes the bitstream unavailable for further writes. Idempotent.
-func (this *Writer) Close() error {
+func (this *Writer) Close() (err error) {
 	if atomic.LoadInt32(&this.closed) == 1 {
 		return nil
 	}
+
+	defer func() {
+		// The bitstream panics when the underlying stream fails
+		if r := recover(); r != nil {
+			switch v := r.(type) {
+			case error:
+				err = &IOError{msg: v.Error(), code: kanzi.ERR_WRITE_FILE}
+			default:
+				err = &IOError{msg: fmt.Sprint(v), code: kanzi.ERR_WRITE_FILE}
+			}
+		}
+	}()
 
 	if atomic.LoadInt32(&this.finalized) == 0 {
 		if atomic.CompareAndSwapInt32(&this.closing, 0, 1) == false {
